@@ -232,9 +232,9 @@ def run(rep: Report, prog: Program, tier: str) -> None:
     if tier == "thorough":
         size_sets = [s + (1,) for s in itertools.product((1, 2, 3), repeat=4)]
     n_sched = 0
-    for prefetch, sizes, start, swap in itertools.product((0, 1, 2, 3), size_sets, (0, 65530), (None, 1, 3)):
-        if max(sizes) > 8 and prefetch > 1:
-            continue  # a prefetch window of several near-capacity frames cannot fit into the 16 slots: the buffer has to drop, nothing to decide
+    for prefetch, sizes, start, swap in itertools.product((0, 1, 2, 3), size_sets, (0, 65530), (None, 1, 3, "pairs")):
+        if max(sizes) > 8 and (prefetch > 1 or swap == "pairs"):
+            continue  # (with every pair swapped the packet behind a 15-packet frame overtakes the one that would mark its end: the span exceeds the 16 slots, a discard is forced)  # a prefetch window of several near-capacity frames cannot fit into the 16 slots: the buffer has to drop, nothing to decide
         # packets of consecutive frames; an extra 1-packet frame at the end flushes the previous ones
         pkts = []
         seq = start
@@ -243,9 +243,12 @@ def run(rep: Report, prog: Program, tier: str) -> None:
                 pkts.append(SimpleNamespace(sequence_number=seq % 65536, timestamp=((1000 if start == 0 else (1 << 32) - 7000) + 3000 * fi_) % (1 << 32), _data=bytes([fi_, k]), frame=fi_))
                 seq += 1
         order = list(range(len(pkts)))
-        if swap is not None and swap + 1 < len(order):
+        if swap == "pairs":
+            for k_ in range(1, len(order) - 1, 2):                            # 0,2,1,4,3,...: every packet after the first displaced by one
+                order[k_], order[k_ + 1] = order[k_ + 1], order[k_]
+        elif swap is not None and swap + 1 < len(order):
             order[swap], order[swap + 1] = order[swap + 1], order[swap]      # one adjacent reordering
-        label = f"prefetch {prefetch}, frame sizes {sizes}, first seq {start}, " + ("in order" if swap is None else f"packets {swap}/{swap + 1} swapped")
+        label = f"prefetch {prefetch}, frame sizes {sizes}, first seq {start}, " + ("in order" if swap is None else "every pair of packets swapped" if swap == "pairs" else f"packets {swap}/{swap + 1} swapped")
         n_sched += 1
         try:
             jb = oh.instantiate(ci, [], dict(capacity=16, prefetch=prefetch, is_video=True), evj)
